@@ -11,3 +11,6 @@ cp /verif/kani/verif_slicing.rs "$S"/src/instruction/slicing/verif_slicing.rs
 printf '\n#[cfg(kani)]\nmod verif_slicing;\n' >> "$S"/src/instruction/slicing.rs
 mkdir -p "$S"/.cargo
 printf '[net]\noffline = true\n' > "$S"/.cargo/config.toml
+# heap objects above 64 bytes (ArcInner<Mut>, ...) are not field-sensitive in CBMC by default: lock words, Arc counts and enum
+# tags stored in them are then not constant-propagated and symex never leaves RwLock::write_contended (DESIGN 13.8)
+printf '\n[package.metadata.kani.flags]\ncbmc-args = ["--max-field-sensitivity-array-size", "256"]\n' >> "$S"/Cargo.toml
